@@ -167,6 +167,14 @@ def write_json(path, obj):
     return path
 
 
+_PKG = {'p/__init__.py': '', 'p/b.py': 'y = 1\nclass B(object):\n    by = 2\n', 'p/sub/__init__.py': '', 'p/sub/a.py': 'x = 1\nclass A(object):\n    ax = 2\n',
+        'p/sub/deep/__init__.py': '', 'p/sub/deep/c.py': 'z = 3\n'}
+_TXT = 'from . import a\nfrom .. import b\nfrom .deep import c\nfrom ... import p as top\na.x\nb.y\nc.z\na.A.ax\nb.B.by\n'
+API_PAIRS = [{'files': _PKG, 'main': 'p/sub/main.py', 'text': _TXT, 'first': [op1, p1], 'second': [op2, p2]}
+             for op1, p1 in (('location', [5, 2]), ('location', [6, 2]), ('assist', [7, 2]), ('assist', [8, 5]))
+             for op2, p2 in (('location', [5, 2]), ('location', [6, 2]), ('location', [7, 2]), ('assist', [9, 5]))
+             if (op1, p1) != (op2, p2)]
+
 PINNED_SCRIPT = r'''
 import json, os, shutil, sys, tempfile, logging
 logging.disable(logging.CRITICAL)
@@ -177,18 +185,19 @@ for case in json.load(sys.stdin):
     d = tempfile.mkdtemp(prefix='c04pin')
     try:
         for fn, t in case['files'].items():
+            os.makedirs(os.path.dirname(os.path.join(d, fn)), exist_ok=True)
             open(os.path.join(d, fn), 'w').write(t)
-        main = os.path.join(d, 'main.py')
+        main = os.path.join(d, case.get('main', 'main.py'))
         def call(p, c):
             with p.check_changes():
                 try:
                     return repr({'assist': assist, 'location': location}[c[0]](p, case['text'], tuple(c[1]), main)).replace(d, '')
                 except Exception as e:
                     return 'raises ' + type(e).__name__
-        fresh = call(Project([d]), case['second'])
+        fresh1 = call(Project([d]), case['first'])
+        fresh2 = call(Project([d]), case['second'])
         p = Project([d])
-        call(p, case['first'])
-        out.append(call(p, case['second']) != fresh)
+        out.append([fresh1, fresh2, call(p, case['first']), call(p, case['second'])])
     finally:
         shutil.rmtree(d, ignore_errors=True)
 json.dump(out, sys.stdout)
@@ -297,6 +306,18 @@ def run(tier, replay=None):
                 cases.append({'id': cid, 'fresh': [x[2] for x in r['api']], 'hist': [[i + 1, x[1]] for i, x in enumerate(r['api'])]})
                 meta[cid] = (j, 'api', [x[0] for x in r['api']])
                 ck.evaluations += 1
+        # request pairs on one Project whose answers go through per-Project tables (relative imports at several levels from one
+        # directory): histories of two requests, the fresh answers computed on a new Project each
+        if not replay:
+            p = core.run_repo_python(['-c', PINNED_SCRIPT], inp=json.dumps(API_PAIRS).encode(), timeout=300)
+            if p.returncode != 0:
+                raise core.MachineryFailure('C04 request pairs: %s' % p.stderr.decode(errors='replace')[-1500:])
+            for k, (case, (f1, f2, l1, l2)) in enumerate(zip(API_PAIRS, json.loads(p.stdout.decode()))):
+                cid = len(cases)
+                cases.append({'id': cid, 'fresh': [f1, f2], 'hist': [[1, l1], [2, l2]]})
+                meta[cid] = ({'id': 'pair-%d' % k, 'source': case['text'], 'filename': case['main'], 'sites': [case['first'], case['second']], 'orders': []},
+                             'pair', None)
+                ck.evaluations += 1
         tl, fails = core.tlc_cases('HistoryCheck', 'HistoryCheck.cfg', cases, 'C04', workdir=wd, timeout=3000)
         ck.add_tlc(tl)
         ck.traces = sum(len(c['hist']) for c in cases)
@@ -331,8 +352,8 @@ def run(tier, replay=None):
             p = core.run_repo_python(['-c', PINNED_SCRIPT], inp=json.dumps([f['input'] for f in pinned]).encode(), timeout=300)
             if p.returncode != 0:
                 raise core.MachineryFailure('pinned C04 inputs: %s' % p.stderr.decode(errors='replace')[-1500:])
-            for f, differs in zip(pinned, json.loads(p.stdout.decode())):
-                if differs:
+            for f, (f1, f2, l1, l2) in zip(pinned, json.loads(p.stdout.decode())):
+                if (f1, f2) != (l1, l2):
                     ck.known(f['id'], f['what'])
             ck.extra['pinned_open_findings_observed'] = len(pinned)
         return ck.finish()
